@@ -33,8 +33,8 @@ def applicable(sc, events):
         return False, "non-default initial mesh exponent"
     if (sc.get("options") or {}).get("_output_fcn"):
         return False, "user output function (not modelled in the design)"
-    if (sc.get("options") or {}).get("stobads"):
-        return False, "stochastic MADS success rule (not modelled in the design)"
+    if (sc.get("options") or {}).get("stobads") and (sc.get("options") or {}).get("sloppy_improvement", True) is False:
+        return False, "stochastic MADS success rule combined with sloppy_improvement = False (not modelled in the design)"
     if any(e["e"] == "Crash" and not e.get("injected") for e in events):
         return False, "run crashed (reported by C09)"
     if (sc.get("faults") or {}).get("fit"):
